@@ -62,6 +62,10 @@ func (a AnonymousFlattenMangler) unmangleStruct(sf reflect.StructField, fvs []Fi
 	allNil := true
 	for i := 0; i < sf.Type.NumField(); i++ {
 		oft := sf.Type.Field(i)
+		if fvsIdx >= len(fvs) {
+			// only fields that were not hoisted (unexported ones) are left
+			break
+		}
 		if oft.Name == fvs[fvsIdx].Field.Name {
 			out.Field(i).Set(fvs[fvsIdx].Value)
 			switch fvs[fvsIdx].Value.Kind() {
